@@ -530,7 +530,7 @@ func (ip *Interp) makeSlice(instr *ssa.MakeSlice, lenV, capV Value) Value {
 	if c < n || uint64(c)*uint64(max(esz, 1)) > maxAllocBytes {
 		ip.throw("makeslice: cap out of range")
 	}
-	if c > 1<<22 {
+	if c > 1<<25 {
 		ip.ex.endPath("unsupported", fmt.Sprintf("make of %d elements is beyond the engine's materialisation limit", c))
 	}
 	if lt.IsConst() && ct.IsConst() {
@@ -637,8 +637,10 @@ func (ip *Interp) appendSlice(st types.Type, s Slice, add []Value) Slice {
 	tElt := st.Underlying().(*types.Slice).Elem()
 	n := len(s.s) + len(add)
 	if n <= cap(s.s) {
-		// in place: writes into the shared backing array
+		// in place: writes into the shared backing array (memmove semantics: the source
+		// may overlap the destination, so it is snapshotted first)
 		ns := s.s[:n]
+		add = append([]Value(nil), add...)
 		for i, v := range add {
 			if ip.monitorOn {
 				ip.noteWrite(&ns[len(s.s)+i], nil)
